@@ -796,8 +796,16 @@ class Exec:
         elif op == 'MakeChan':
             R[ins['reg']] = Ptr(st.alloc({'chan': [], 'cap': None}))
         elif op == 'Send':
-            ch = V(ins['chan']); st.ev('send', chan=repr(ch), val=V(ins['x']))
-            if isinstance(ch, Ptr) and isinstance(st.heap.get(ch.obj), dict) and 'chan' in st.heap[ch.obj]: st.heap[ch.obj]['chan'].append(V(ins['x']))
+            ch = V(ins['chan']); cell = self.chan_cell(st, ch)
+            if cell is not None and cell.get('room') is not None:
+                room = cell['room']
+                def go_(s):
+                    c2 = self.chan_cell(s, ch); c2['chan'].append(V(ins['x'])); c2['room'] = None; s.ev('send', chan=repr(ch), val=V(ins['x']))
+                def block(s):
+                    s.status = 'blocked'; s.result = 'send blocks: channel full @ ' + self.where(s)
+                return self.branch(st, room, go_, block)
+            st.ev('send', chan=repr(ch), val=V(ins['x']))
+            if cell is not None: cell['chan'].append(V(ins['x']))
         elif op == 'Select':
             return self.select(st, fr, ins)
         else:
@@ -814,8 +822,47 @@ class Exec:
         fr.regs[ins['reg']] = v
         return None
 
+    def chan_cell(self, st, ch):
+        if isinstance(ch, Ptr) and isinstance(st.heap.get(ch.obj), dict) and 'chan' in st.heap[ch.obj]: return st.heap[ch.obj]
+        return None
+
     def select(self, st, fr, ins):
-        raise Unsupported('select')
+        """select over channel operations.  Channel cells: {'chan': [values], 'room': Bool|None}.  A send to a channel whose cell has a
+        symbolic 'room' forks on it; receives take a queued value if any.  Nothing ready: default branch (index -1) when non-blocking,
+        else the path ends as 'blocked'."""
+        states = ins['states']; blocking = ins['blocking']; reg = ins['reg']
+        tt = self.ir.under(ins['type'])[1]['elems'] or []
+        def result(s, idx, recvvals=None):
+            vals = [z3.BitVecVal(idx, 64), z3.BoolVal(recvvals is not None)]
+            k = 0
+            for j, sd in enumerate(states):
+                if sd['dir'] == 2:
+                    vals.append((recvvals[0] if (recvvals is not None and j == idx) else self.zero(tt[2 + k])) if 2 + k < len(tt) else None); k += 1
+            s.frames[-1].regs[reg] = tuple(vals[:len(tt)]) if tt else tuple(vals)
+        out = []; cur = st
+        for i, sd in enumerate(states):
+            ch = self.val(cur, fr if cur is st else cur.frames[-1], sd['chan'])
+            cell = self.chan_cell(cur, ch)
+            if sd['dir'] == 1:      # send
+                v = self.val(cur, cur.frames[-1], sd['send'])
+                if cell is None:
+                    cur.ev('send', chan=repr(ch), val=v); result(cur, i); return (out + [cur]) if out else None
+                room = cell.get('room')
+                if room is None:
+                    cell['chan'].append(v); cur.ev('send', chan=repr(ch), val=v); result(cur, i); return (out + [cur]) if out else None
+                if self.feasible(cur.pc, room):
+                    s2 = cur.fork(); s2.pc.append(room); c2 = self.chan_cell(s2, ch); c2['chan'].append(clone(v)); c2['room'] = None
+                    s2.ev('send', chan=repr(ch), val=v); result(s2, i); out.append(s2)
+                if not self.feasible(cur.pc, z3.Not(room)):
+                    cur.status = 'infeasible'; return out
+                cur.pc.append(z3.Not(room))
+            else:                   # receive
+                if cell is not None and cell['chan']:
+                    v = cell['chan'].pop(0); result(cur, i, [v]); return (out + [cur]) if out else None
+        if not blocking:
+            result(cur, -1); return (out + [cur]) if out else None
+        cur.status = 'blocked'; cur.result = 'select blocks: no channel operation is ready @ ' + self.where(cur)
+        return out + [cur] if out else None if False else (out + [cur])
 
     def next_iter(self, st, fr, ins):
         it = self.val(st, fr, ins['iter']); R = fr.regs
